@@ -176,9 +176,15 @@ def run(rep):
             nprob += 1
             rep.finding(classify(r, hist), {'pair': r['pair'], 'history': signature(r), 'second_party_runs_before_call': r['k'], 'call': r['call'], 'rule': r['rule'],
                                       'first_party_exit': r['status'], 'second_party_exit': r['b_status'], 'what': r['problems'][:5]})
+    sched_cov = None
+    if rep.tier == 'thorough':
+        # two preemption points, three parties, the external client as a party, sampled schedules - every schedule also run by
+        # Model/Parties.lean through the driver (tools/c17sched.py)
+        import c17sched
+        sched_cov = c17sched.stage(rep, tools, sc, int(os.environ.get('VERIF_C17_BUDGET', '0')) or c17sched.BUDGET)
     vlib.lean_conclude(rep)
     rep.coverage.update({
-        'evaluations': len(results),
+        'evaluations': len(results) + (sched_cov['schedules'] if sched_cov else 0),
         'distinct_nontrivial': len([r for r in results if r['b_status'] or r['b_kind'].startswith('ext')]),
         'rule': '%d ordered pairs of parties from {move to A, move to B, cross-device move, flag, label, discard} x {the same, external rename, '
                 'external delete} on a shared maildir with 2 messages, and for each pair every schedule in which the second party runs to '
@@ -188,12 +194,19 @@ def run(rep):
         'samples': [r for r in results if not r['problems']][:2] + [r for r in results if r['problems']][:2],
         'schedules_with_problems': nprob,
         'problem_classes': classes,
+        'single_preemption_sweep': {'schedules': len(results), 'exhaustive': True},
     })
+    if sched_cov:
+        rep.coverage['schedules_against_the_parties_model'] = sched_cov
 
 
 def replay(rep, path):
     import json
-    print(json.dumps(json.load(open(path)), indent=1)[:3000])
+    j = json.load(open(path))
+    print(json.dumps(j, indent=1)[:3000])
     sc = vlib.Scratch()
     vlib.lean_gate(rep, 'C17', sc, [])
+    if j.get('stage') == 'schedules' and j.get('schedule'):
+        import c17sched
+        c17sched.replay(proc.Tools(sc), sc, j)
     rep.coverage.update({'evaluations': 1, 'distinct_nontrivial': 1})
